@@ -9,7 +9,7 @@
    Every theorem is for ALL digest functions H (MD5 in the code), all secrets, all handler behaviours,
    all contents of the reused receive buffer [stale], all byte strings [dg]. *)
 From Coq Require Import NArith List.
-From Verif Require Import Base.Word Model.Coa Model.CoaSpec Proofs.CoaProofs.
+From Verif Require Import Base.Word Model.Coa Model.CoaSpec Proofs.CoaProofs Proofs.CoaSoundProofs.
 Import ListNotations.
 Local Open Scope N_scope.
 
@@ -77,16 +77,74 @@ Print Assumptions C15_stale_buffer_irrelevant.
    that also judges the real code's traces) accepts what the Model does with ANY datagram, when the
    observable "complete and verifies" is the true one. Guard: the response is shorter than 65536 bytes
    (a Reply-Message of > 65 KB would wrap the 16-bit Length field). *)
-Theorem C15_monitor_accepts_model : forall secret cs ds handler H stale dg hr tbl fl,
+Theorem C15_monitor_accepts_model : forall secret cs ds handler H stale dg hr tbl fl ma,
   (forall c called req resp, coa_process true secret cs ds handler H stale dg = Handle c called req resp ->
                              N.of_nat (length resp) < 65536) ->
   let ss := {| s_secret := secret; s_coa_set := cs; s_dm_set := ds |} in
   accept (fun k => Some (H k)) ss
          {| o_dg := dg; o_hr := hr; o_authentic := andb (s_complete dg) (req_verifies secret H dg);
-            o_tbl := tbl; o_md5 := fl |}
+            o_tbl := tbl; o_md5 := fl; o_ma := ma |}
          (obs_of (coa_process true secret cs ds handler H stale dg)) = inl ss.
 Proof. exact monitor_accepts_model. Qed.
 Print Assumptions C15_monitor_accepts_model.
+
+(* (8) The property stated on what is EMITTED, independently of the Model (Model/CoaSpec.v):
+     resp_wire_ok H secret dg r : the datagram r that was sent, as a byte string with whatever attribute
+       bytes it carries: id = request id, code = ACK/NAK of the request's code, Length field = datagram
+       length, bytes 4..19 = digest(code, id, length, Request Authenticator of dg, attributes-as-sent, secret);
+     C15_step_ok H secret cs ds dg calls resps : the property text for one delivered datagram and the
+       handler calls / responses observed for it (only-if, if, at most one, every response verifies).
+   The response the Model emits satisfies resp_wire_ok (guard: shorter than 65536 bytes). *)
+Theorem C15_response_wire_verifies : forall secret cs ds handler H stale dg c called req resp,
+  coa_process true secret cs ds handler H stale dg = Handle c called req resp ->
+  N.of_nat (length resp) < 65536 -> resp_wire_ok H secret dg resp = true.
+Proof. exact response_wire. Qed.
+Print Assumptions C15_response_wire_verifies.
+
+(* (9) soundness of the trace monitor: whatever handler calls and response BYTES are observed for a
+   datagram (from the Model, from the real code, predicted by the Model or not), if the monitor accepts
+   the step then the property holds for it, and the driver's verdict "authentic" is the true one *)
+Theorem C15_monitor_sound : forall H ss o calls resps ss',
+  accept (fun k => Some (H k)) ss o (OObs calls resps) = inl ss' ->
+  ss' = ss /\ o_authentic o = s_authentic H (s_secret ss) (o_dg o) /\
+  C15_step_ok H (s_secret ss) (s_coa_set ss) (s_dm_set ss) (o_dg o) calls resps.
+Proof. exact monitor_sound. Qed.
+Print Assumptions C15_monitor_sound.
+
+(* the monitor's response clause is exactly the wire-level predicate *)
+Theorem C15_monitor_response_clause : forall H secret dg r,
+  resp_ok (fun k => Some (H k)) secret dg r = None <-> resp_wire_ok H secret dg r = true.
+Proof. exact resp_ok_wire. Qed.
+Print Assumptions C15_monitor_response_clause.
+
+(* (10) whole histories. Every trace the monitor accepts satisfies the property at every step (a panic is
+   never accepted); the Model run over ANY list of datagrams (receive buffer threaded through, handler
+   behaviour arbitrary per datagram) is accepted, hence satisfies the property at every step.
+   Guard of the last two: no response of 65536 bytes or more (16-bit Length field). *)
+Theorem C15_accepted_trace_satisfies_property : forall secret cs ds H tr,
+  accept_list (fun k => Some (H k)) {| s_secret := secret; s_coa_set := cs; s_dm_set := ds |} tr = true ->
+  Forall (fun x => match snd x with
+                   | OObs calls resps => C15_step_ok H secret cs ds (o_dg (fst x)) calls resps
+                   | _ => False
+                   end) tr.
+Proof. exact accepted_trace_sound. Qed.
+Print Assumptions C15_accepted_trace_satisfies_property.
+
+Theorem C15_monitor_accepts_model_history : forall secret cs ds H h,
+  short_responses secret cs ds H h ->
+  forall stale, accept_list (fun k => Some (H k)) {| s_secret := secret; s_coa_set := cs; s_dm_set := ds |}
+                            (model_run secret cs ds H stale h) = true.
+Proof. exact monitor_accepts_model_run. Qed.
+Print Assumptions C15_monitor_accepts_model_history.
+
+Theorem C15_model_history_satisfies_property : forall secret cs ds H h stale,
+  short_responses secret cs ds H h ->
+  Forall (fun x => match snd x with
+                   | OObs calls resps => C15_step_ok H secret cs ds (o_dg (fst x)) calls resps
+                   | _ => False
+                   end) (model_run secret cs ds H stale h).
+Proof. exact model_run_sound. Qed.
+Print Assumptions C15_model_history_satisfies_property.
 
 (* strict attribute tiling (the monitor's "well-formed") implies the code's parser succeeds *)
 Theorem C15_wellformed_attributes_parse : forall dg, s_wf dg = true -> exists a, attrs_parse (s_attrs dg) = POk a.
@@ -116,3 +174,13 @@ Example C15_acted_on_satisfiable : C15_acted_on [115] (fun _ => []) ex_dg.
 Proof. exact ex_acted_on. Qed.
 Example C15_not_acted_on_satisfiable : ~ C15_acted_on [115] (fun _ => [1]) ex_dg.
 Proof. exact ex_not_acted_on. Qed.
+(* the guard of (10) is satisfiable by a history with an acted-on datagram, and C15_step_ok is not
+   trivially true: silence on an authentic well-formed request violates it *)
+Example C15_short_responses_satisfiable :
+  short_responses [115] true true (fun _ => []) [(ex_dg, fun _ _ => dm_default); (ex_dg, fun _ _ => coa_default)].
+Proof. exact ex_short_responses. Qed.
+Example C15_step_ok_excludes_silence : ~ C15_step_ok (fun _ => []) [115] true true ex_dg [] [].
+Proof. exact ex_silence_not_ok. Qed.
+Example C15_wire_rejects_unverifiable_response :
+  resp_wire_ok (fun _ => []) [115] ex_dg ex_bad_resp = false /\ resp_wire_ok (fun _ => []) [115] ex_dg ex_good_resp = true.
+Proof. exact ex_wire. Qed.
